@@ -287,6 +287,9 @@ def e1_strings(ctx):
             checks.append(f"chk_regex {cp} {cs} {coq_str(rx)}")
             descr.append(("regex-text", p, subs, rx))
             ctx.count("regex_ok")
+            # hypothesis of C17_backref_equal_substrings on the compiler's output
+            checks.append(f"chk_parts_ok {cp} {cs}")
+            descr.append(("parts_ok", p, subs))
         except ValueError as e:
             code = err_code(e)
             if code is None:
@@ -569,33 +572,25 @@ def e1_trees(ctx):
     bad = common.run_cases(ctx, "tree", HEADER, checks, chunk=120)
     ctx.traces_validated += len(checks) - len(bad)
     _report(ctx, bad, descr, "trees")
-    # reference semantics (the code's reading: directories only for star-like endings) versus the
-    # recorded set; patterns outside the reference's domain are counted, not compared
+    # reference semantics (the code's reading: directories only for star-like endings) versus what
+    # glob() records once the four known matcher/candidate defects are repaired (the oracle reports
+    # those separately); patterns outside the reference's domain are counted, not compared
     unsupported = set(common.run_cases(ctx, "sup", HEADER, sup_checks, chunk=600))
     ctx.count("ref_unsupported_patterns", len(unsupported))
     rchecks, rdescr = [], []
     for i, c in enumerate(cases):
         if i in unsupported or not (classes_plain(c.pattern, c.subs) and _good_names(c.pattern)):
             continue
+        exp = expected_with_repairs(c)
         rchecks.append(f"chk_ref_set false {coq_str(c.pattern)} {coq_subs(c.subs)} "
-                       f"{coq_lstr(c.allpaths)} {coq_lstr(sorted(c.rec))}")
-        rdescr.append(c)
-        ctx.case(("ref", c.pattern, tuple(sorted(c.subs.items())), tuple(c.allpaths)), bool(c.rec))
+                       f"{coq_lstr(c.allpaths)} {coq_lstr(sorted(exp))}")
+        rdescr.append(("reference", c.pattern, c.subs, c.allpaths, sorted(exp)))
+        ctx.case(("ref", c.pattern, tuple(sorted(c.subs.items())), tuple(c.allpaths)), bool(exp))
+        ctx.count("ref_expected_differs_from_recorded", int(exp != c.rec))
     ctx.count("E1_ref_checks", len(rchecks))
     bad = common.run_cases(ctx, "ref", HEADER, rchecks, chunk=150)
     ctx.traces_validated += len(rchecks) - len(bad)
-    seen = set()
-    for i in bad:
-        c = rdescr[i]
-        cause = classify(c, "ref")
-        sig = f"ref:recorded!=reference:{cause}"
-        if sig in seen:
-            continue
-        seen.add(sig)
-        ctx.add_failure("correspondence", "E1:reference", sig,
-                        f"recorded set of NamedGlob({c.pattern!r}, {c.subs!r}).glob() = {sorted(c.rec)!r} differs from "
-                        f"the reference semantics on the existing paths {c.allpaths!r}",
-                        witness=_witness(c))
+    _report(ctx, bad, rdescr, "reference semantics")
 
 
 def _witness(c, **extra):
@@ -606,65 +601,109 @@ def _witness(c, **extra):
 
 
 # ---------------------------------------------------------------------------------------------
-# Classification of a disagreement by its cause (signature component)
+# Explaining a disagreement by its cause (signature)
 # ---------------------------------------------------------------------------------------------
+# Five mechanisms are known (findings.d/C17-*.json).  Each has a hypothetical repair that can be
+# applied to the regex text / the candidate list of the implementation without touching it.  A
+# disagreement is attributed to the smallest set of mechanisms whose repairs make the clause hold;
+# when no set does, the cause is "unexplained" and the failure is reported under that signature.
+
+NEG, EMPTY, NEWLINE, GHOST, DIRS, SUBREC = (
+    "negated-class-accepts-separator",              # [!a] -> [^a] also matches '/'
+    "empty-last-component-accepted",                # d/*${*n} and d/**/* accept "d/"
+    "newline-not-matched-by-recursive-wildcard",    # ** -> .* without DOTALL
+    "recursive-glob-yields-nonexistent-directory",  # glob('f/**') = ['f/'] although f is no directory
+    "directory-dropped-last-token-not-star",        # `a` does not match the directory a/
+    "recursive-wildcard-in-sub-pattern",            # ${*n} with n='**' is compiled out of context
+)
+CAUSES = [NEG, EMPTY, NEWLINE, GHOST, DIRS, SUBREC]
+_STAR = r"(?:\[\^/\][*+]|\(\?P<\w+>\[\^/\][*+]\))"
+_TRAILING_RUN = re.compile(r"(?:/|\(\?:\.\*/\|\))(" + _STAR + r"+)/\?$")
 
 
-def _tokens_text(pattern):
+def expand_subs(pattern, subs):
+    """The pattern with every named wildcard spelled out by its sub-pattern (names must not repeat)."""
     from stepup.core.nglob import RE_ANY_WILD
-    return [p for p in RE_ANY_WILD.split(pattern) if p]
+    out = []
+    for i, part in enumerate(RE_ANY_WILD.split(pattern)):
+        if i % 2 == 1 and part.startswith("${*"):
+            out.append(subs.get(part[3:-1], "*"))
+        else:
+            out.append(part)
+    return "".join(out)
 
 
-def last_token_starlike(pattern, subs):
-    toks = _tokens_text(pattern)
-    if not toks:
-        return False
-    t = toks[-1]
-    if t == "*":
-        return True
-    if t.startswith("${*"):
-        name = t[3:-1]
-        if t in toks[:-1]:
-            return False
-        sub = subs.get(name, "*")
-        return bool(sub) and set(sub) == {"*"} and sub != "**"
-    return False
+def has_recursive_sub(pattern, subs):
+    from stepup.core.nglob import RE_ANY_WILD
+    used = set(names_of(pattern))
+    return any(tok in ("**", "**/") for n, v in subs.items() if n in used for tok in RE_ANY_WILD.split(v)[1::2])
 
 
-def classify(c, what):
-    """Name the cause of a disagreement on a tree case; 'other' when none of the known causes explains it."""
+def repaired_regex(pattern, subs, fixes):
+    """The regex the implementation would use if the hypothetical repairs in `fixes` were in place."""
     from stepup.core.nglob import convert_nglob_to_regex
-    rx_text = convert_nglob_to_regex(c.pattern, c.subs)
+    flags = 0
+    nm = names_of(pattern)
+    if SUBREC in fixes and has_recursive_sub(pattern, subs) and len(nm) == len(set(nm)):
+        rx_text = convert_nglob_to_regex(expand_subs(pattern, subs), {})
+    else:
+        rx_text = convert_nglob_to_regex(pattern, subs)
+    if NEG in fixes:
+        rx_text = re.sub(r"\[\^(?!/)", "[^/", rx_text)
+    if EMPTY in fixes:
+        m = _TRAILING_RUN.search(rx_text)
+        if m:
+            rx_text = rx_text[:m.start(1)] + "(?=[^/])" + rx_text[m.start(1):]
+    if NEWLINE in fixes:
+        flags = re.DOTALL
+    if DIRS in fixes:
+        if not pattern.endswith("/") and not rx_text.endswith("/?") and not rx_text.endswith(".*"):
+            rx_text += "/?"
+    return re.compile(rx_text, flags)
+
+
+def clause_holds(c, fixes, clause):
+    """Would the clause hold on this tree case if the repairs in `fixes` were in place?"""
+    try:
+        rx = repaired_regex(c.pattern, c.subs, fixes)
+    except (ValueError, re.error):
+        return False
     existing = set(c.allpaths)
-    if c.rec - existing:
-        ghosts = c.rec - existing
-        if all(g.endswith("/") for g in ghosts):
-            return "recursive-glob-yields-nonexistent-directory"
-        return "other"
-    if any("\n" in q for q in (c.rec ^ c.acc) | (c.std_own ^ c.rec)):
-        return "newline-in-name"
-    if c.acc != c.rec:
-        # would the disagreement vanish if negated classes excluded the separator?
-        patched = re.compile(rx_text.replace("[^", "[^/"))
-        acc2 = {q for q in c.allpaths if patched.fullmatch(q)}
-        if acc2 == c.rec:
-            return "negated-class-accepts-separator"
-        extra = c.acc - c.rec
-        if extra and not (c.rec - c.acc) and all(q.endswith("/") for q in extra) \
-                and all(not patched.fullmatch(q[:-1] + "/x") or True for q in extra):
-            # the last component of the pattern consists of several star-like wildcards and matched ""
-            last = c.pattern.rsplit("/", 1)[-1]
-            if "/" in c.pattern and len(_tokens_text(last)) >= 2 and all(
-                    t == "*" or t.startswith("${*") for t in _tokens_text(last)):
-                return "empty-last-component-of-adjacent-wildcards"
-        return "other"
-    if what in ("std", "ref-std") and c.std_own != c.rec:
-        missing = c.std_own - c.rec
-        if missing and not (c.rec - c.std_own) and all(q.endswith("/") for q in missing) \
-                and not last_token_starlike(c.pattern, c.subs) and not c.pattern.endswith("/"):
-            return "directory-dropped-last-token-not-star"
-        return "other"
-    return "other"
+    cands = set(c.std_own)
+    if GHOST in fixes:
+        cands &= existing
+    rec = {q for q in cands if rx.fullmatch(q)}
+    acc = {q for q in existing if rx.fullmatch(q)}
+    if clause == "O1":
+        return rec == acc
+    if clause == "O2":
+        return rec == (c.std_own & existing)
+    raise AssertionError(clause)
+
+
+def explain(holds):
+    """Smallest set of causes whose repairs make holds(fixes) true; None when there is none."""
+    import itertools
+    for k in range(0, len(CAUSES) + 1):
+        for fixes in itertools.combinations(CAUSES, k):
+            if holds(set(fixes)):
+                return list(fixes)
+    return None
+
+
+def report_causes(ctx, seen, clause, name, causes, detail, witness):
+    for cause in (causes if causes is not None else ["unexplained"]):
+        sig = f"C17:{cause}"
+        if (clause, sig) in seen:
+            continue
+        seen.add((clause, sig))
+        ctx.add_failure("oracle", name, sig, f"[{clause}; cause: {cause}] " + detail, witness=witness)
+
+
+def expected_with_repairs(c):
+    """What glob() would record with the matcher repairs in place (not the directory one)."""
+    rx = repaired_regex(c.pattern, c.subs, {NEG, EMPTY, NEWLINE})
+    return {q for q in c.allpaths if rx.fullmatch(q)}
 
 
 # ---------------------------------------------------------------------------------------------
@@ -728,38 +767,50 @@ def oracle(ctx):
     cases = getattr(ctx, "tree_cases", None)
     if cases is None:
         cases = run_tree_cases(ctx, ctx.scale(14, 150), ctx.scale(9, 12))
-    oracle_on(ctx, cases)
+    fixed = run_tree_cases(ctx, 0, 0, fixed=[(tree, [(p, s)]) for tree, p, s in WITNESSES])
+    ctx.count("refuted_witnesses_replayed", len(fixed))
+    seen = oracle_on(ctx, fixed)
+    oracle_on(ctx, cases, seen)
     oracle_named_vs_star(ctx)
     oracle_repeated(ctx)
     oracle_update(ctx)
 
 
-def oracle_on(ctx, cases):
-    seen = set()
+WITNESSES = [
+    # the witnesses of the _refuted lemmas in coq/proofs/NglobRefute.v, replayed on the implementation
+    ({"a": {}}, "*[!a]", {}),
+    ({"a": {}}, "a", {}),
+    ({"f": None}, "f/**", {}),
+    ({"d": {}}, "d/*${*n}", {}),
+    ({"d": {}}, "d/**/*", {}),
+    ({"aa": {"aa": None}}, "*${*n}aa", {"n": "**"}),
+    ({"d": {"n\nl": None}}, "d/**", {}),
+]
+
+
+def oracle_on(ctx, cases, seen=None):
+    seen = set() if seen is None else seen
     for c in cases:
+        key = (c.pattern, tuple(sorted(c.subs.items())), tuple(c.allpaths))
         # O1: recorded = existing paths the matcher accepts
-        ctx.case(("O1", c.pattern, tuple(sorted(c.subs.items())), tuple(c.allpaths)), bool(c.acc))
+        ctx.case(("O1",) + key, bool(c.acc))
         if c.rec != c.acc:
-            cause = classify(c, "acc")
-            sig = f"O1:recorded!=accepted-existing:{cause}"
-            if sig not in seen:
-                seen.add(sig)
-                ctx.add_failure("oracle", "O1:recorded=accepted", sig,
-                                f"NamedGlob({c.pattern!r}, {c.subs!r}).glob() recorded {sorted(c.rec)!r}; the existing "
-                                f"paths its regex accepts are {sorted(c.acc)!r}", witness=_witness(c))
+            causes = explain(lambda fixes: clause_holds(c, fixes, "O1"))
+            report_causes(ctx, seen, "O1", "O1:recorded=accepted-existing", causes,
+                          f"NamedGlob({c.pattern!r}, {c.subs!r}).glob() recorded {sorted(c.rec)!r}; the existing "
+                          f"paths its regex accepts are {sorted(c.acc)!r}", _witness(c))
         # O2: ... which, without repeated names, is what the standard recursive glob returns
         nm = names_of(c.pattern)
         if len(nm) == len(set(nm)):
-            ctx.case(("O2", c.pattern, tuple(sorted(c.subs.items())), tuple(c.allpaths)), bool(c.std_own))
-            if c.rec != c.std_own and c.rec == c.acc:
-                cause = classify(c, "std")
-                sig = f"O2:recorded!=standard-glob:{cause}"
-                if sig not in seen:
-                    seen.add(sig)
-                    ctx.add_failure("oracle", "O2:recorded=glob.glob", sig,
-                                    f"NamedGlob({c.pattern!r}, {c.subs!r}).glob() recorded {sorted(c.rec)!r}; "
-                                    f"glob.glob({c.pattern!r} translated, recursive, include_hidden) returns "
-                                    f"{sorted(c.std_own)!r}", witness=_witness(c))
+            std = c.std_own & set(c.allpaths)
+            ctx.case(("O2",) + key, bool(std))
+            if c.rec != std:
+                causes = explain(lambda fixes: clause_holds(c, fixes, "O2"))
+                report_causes(ctx, seen, "O2", "O2:recorded=glob.glob", causes,
+                              f"NamedGlob({c.pattern!r}, {c.subs!r}).glob() recorded {sorted(c.rec)!r}; "
+                              f"glob.glob(translated pattern, recursive=True, include_hidden=True) returns the "
+                              f"existing paths {sorted(std)!r}", _witness(c))
+    return seen
 
 
 def oracle_named_vs_star(ctx):
@@ -832,6 +883,7 @@ def oracle_repeated(ctx):
                         continue
                     lit = p.replace("${*" + name + "}", v)
                     if not lit:
+                        expect = expect or s == ""
                         continue
                     try:
                         # the pattern with the name spelled out, compiled without post-processing of that text
@@ -878,7 +930,7 @@ def oracle_update(ctx):
                     except (ValueError, re.error):
                         continue
                     ng.glob()
-                    olds.append(ng)
+                    olds.append((ng, canon_glob(ng._glob_pattern)))
                 before = set(_walk_paths("."))
                 # change the tree: delete some paths (with everything below), add files and directories
                 for q in rng.sample(sorted(before), min(len(before), rng.randint(0, 3))):
@@ -901,33 +953,41 @@ def oracle_update(ctx):
                 added = sorted(after - before)
                 # the watcher also reports modified files that still exist
                 touched = [q for q in sorted(after & before) if not q.endswith("/") and rng.random() < 0.2]
-                for ng in olds:
+                for ng, std_before in olds:
                     fresh = NamedGlob(ng.pattern, ng.subs)
                     fresh.glob()
+                    std_after = canon_glob(ng._glob_pattern)
                     ev = ng.will_change(set(deleted), set(added) | set(touched))
                     new_results = ng.results if ev is None else ev.results
                     ctx.case(("O5", ng.pattern, tuple(sorted(ng.subs.items())), tuple(sorted(after)), tuple(deleted)),
                              bool(fresh.results) or bool(ng.results))
-                    if new_results != fresh.results:
-                        c = TreeCase(tree, ng.pattern, ng.subs, {str(x) for x in fresh.files()},
-                                     {q for q in sorted(after) if ng._regex.fullmatch(q)},
-                                     canon_glob(ng._glob_pattern), sorted(after), None)
-                        cause = classify(c, "acc")
-                        if cause == "other" and {str(x) for x in ng.files()} - before:
-                            cause = "recursive-glob-yields-nonexistent-directory"
-                        sig = f"O5:update!=rescan:{cause}"
-                        if sig in seen:
-                            continue
-                        seen.add(sig)
-                        upd = sorted(str(x) for v in new_results.values() for x in v)
-                        ctx.add_failure("oracle", "O5:update=rescan", sig,
-                                        f"NamedGlob({ng.pattern!r}, {ng.subs!r}): will_change(deleted={deleted!r}, "
-                                        f"added={added!r}) gives {upd!r}, a fresh glob() gives "
-                                        f"{sorted(str(x) for x in fresh.files())!r}",
-                                        witness={"tree_before": tree, "paths_after": sorted(after), "deleted": deleted,
-                                                 "added": added, "touched": touched, "pattern": ng.pattern,
-                                                 "subs": ng.subs, "updated": upd,
-                                                 "rescanned": sorted(str(x) for x in fresh.files())})
+                    if new_results == fresh.results:
+                        continue
+
+                    def holds(fixes, ng=ng, std_before=std_before, std_after=std_after):
+                        try:
+                            rx = repaired_regex(ng.pattern, ng.subs, fixes)
+                        except (ValueError, re.error):
+                            return False
+                        cb, ca = set(std_before), set(std_after)
+                        if GHOST in fixes:
+                            cb &= before
+                            ca &= after
+                        old = {q for q in cb if rx.fullmatch(q)}
+                        evolved = (old | {q for q in set(added) | set(touched) if rx.fullmatch(q)}) - set(deleted)
+                        return evolved == {q for q in ca if rx.fullmatch(q)}
+
+                    causes = explain(holds)
+                    if causes == []:
+                        causes = None  # the sets agree but the grouped dictionaries do not
+                    upd = sorted(str(x) for v in new_results.values() for x in v)
+                    report_causes(ctx, seen, "O5", "O5:update=rescan", causes,
+                                  f"NamedGlob({ng.pattern!r}, {ng.subs!r}): will_change(deleted={deleted!r}, "
+                                  f"added={added!r}) gives {upd!r}, a fresh glob() gives "
+                                  f"{sorted(str(x) for x in fresh.files())!r}",
+                                  {"tree_before": tree, "paths_after": sorted(after), "deleted": deleted,
+                                   "added": added, "touched": touched, "pattern": ng.pattern, "subs": ng.subs,
+                                   "updated": upd, "rescanned": sorted(str(x) for x in fresh.files())})
 
 
 def _walk_paths(base):
